@@ -1,4 +1,4 @@
-import Req.Lemmas.C18Order
+import Req.Lemmas.C18Err
 /-!
 C18 — property theorems, part 2: the call pipeline (`Req.Pipeline`, the model of
 `Request.Do/do/Send/Get…/Must*`, `Client.roundTrip`, `WrapRoundTrip`, `handleDigestAuthFunc`).
@@ -71,5 +71,203 @@ example : (run Fixes.all { clientResp := [[.ret (.stage 1)], [.nop]], reqResp :=
 /-- The number of attempts never exceeds `MaxRetries + 1`. -/
 theorem attempts_bound (fx : Fixes) (s : Stack) : (run fx s).atts.length ≤ s.maxRetries + 1 := by
   rw [run_atts]; exact callDo_atts_length fx s
+
+/-! ### the error contract -/
+
+/-- **pipeline_never_panics** — the repaired pipeline never dereferences a nil response: for
+every stack, including wrapping round-trippers that return `(nil, err)` or `(nil, nil)` on any
+attempt with any retry budget, the digest middleware on whatever comes out of the wrappers, and
+request middleware failing on a retry. (`Must*` panicking with the call's error is the
+documented contract of those helpers, a different outcome: `Out.mustPanic`.) -/
+theorem pipeline_never_panics (s : Stack) : (run Fixes.all s).isCrash = false := by
+  obtain ⟨hc, hr⟩ := callDo_some Fixes.all rfl rfl s
+  obtain ⟨r, hr⟩ := Option.isSome_iff_exists.mp hr
+  unfold run
+  simp only [hc, hr, Bool.false_eq_true, if_false]
+  split
+  · rfl
+  · split <;> rfl
+
+/-- The code as found DOES panic (DESIGN section 5 row 6): a wrapper returning `(nil, err)` with
+one retry allowed. -/
+theorem as_found_nil_resp_retry_panics :
+    (run Fixes.none { entry := .verb, wrappers := [[.shortNil (.stage 1)]], maxRetries := 1 }).isCrash = true := by
+  decide
+
+/-- … and without any retry when the nil response reaches the digest middleware. -/
+theorem as_found_nil_resp_digest_panics :
+    (run Fixes.none { wrappers := [[.shortNil (.stage 1)]],
+                      reqResp := [[.digest true (.fail (.stage 2))]] }).isCrash = true := by
+  decide
+
+/-- **resp_nonnil_and_err_agree** — every call that returns hands back a non-nil response, and
+the error it returns is the one recorded in that response (`Do` returns no error value: the
+model reports `resp.Err`); a `Must*` call panics exactly with the recorded error. Holds for every
+variant that has the nil guard (the as-found code can crash instead, see above). -/
+theorem resp_nonnil_and_err_agree (s : Stack) :
+    match run Fixes.all s with
+    | .ret resp err _ _ => ∃ r, resp = some r ∧ err = r.err ∧ (s.entry = .must → err = none)
+    | .mustPanic e _ _ => s.entry = .must ∧ ∃ r, (callDo Fixes.all s).resp = some r ∧ r.err = some e
+    | .crash _ => False := by
+  obtain ⟨hc, hr⟩ := callDo_some Fixes.all rfl rfl s
+  obtain ⟨r, hr⟩ := Option.isSome_iff_exists.mp hr
+  unfold run
+  simp only [hc, hr, Bool.false_eq_true, if_false]
+  cases he : s.entry <;> simp only []
+  · exact ⟨r, rfl, rfl, by simp⟩
+  · exact ⟨r, rfl, rfl, by simp⟩
+  · exact ⟨r, rfl, rfl, by simp⟩
+  · cases hre : r.err with
+    | none => exact ⟨r, rfl, by simp [hre], by simp⟩
+    | some e => exact ⟨by simp, r, rfl, hre⟩
+
+/-- **onError_once** — the error hook runs exactly once when a verb-style call (`Send`, `Get`,
+`Post`, … and the `Must*` helpers built on them) ends in error and a hook is installed, and
+never otherwise: not for `Do`, not for a call without error, not once per attempt or per
+failing stage. Holds for every code variant. -/
+theorem onError_once (fx : Fixes) (s : Stack) :
+    match run fx s with
+    | .ret _ err hooks _ => hooks = if s.entry ≠ .do_ ∧ s.hook = true ∧ err ≠ none then 1 else 0
+    | .mustPanic _ hooks _ => hooks = if s.hook = true then 1 else 0
+    | .crash _ => True := by
+  unfold run
+  cases hc : (callDo fx s).crash <;> simp only [hc, Bool.false_eq_true, if_false, if_true]
+  cases hr : (callDo fx s).resp with
+  | none => simp only []
+  | some r => cases he : s.entry <;> cases hh : s.hook <;> cases hre : r.err <;> simp [hre]
+
+example : run Fixes.all { entry := .verb, hook := true, maxRetries := 2, clientResp := [[.ret (.stage 1), .ret (.stage 1), .ret (.stage 1)]],
+                          transport := [.fail (.stage 2)] } matches .ret _ (some (.stage 1)) 1 [_, _, _] := by decide
+example : run Fixes.all { entry := .do_, hook := true, transport := [.fail (.stage 2)] } matches .ret _ (some (.stage 2)) 0 _ := by decide
+
+/-- The error the caller sees: returned by `Send`/verbs, read from `resp.Err` after `Do`, or the
+panic value of `Must*`. -/
+def callErr : Out → Option Err
+  | .ret _ err _ _ => err
+  | .mustPanic e _ _ => some e
+  | .crash _ => none
+
+theorem run_callErr (s : Stack) : ∃ r, (callDo Fixes.all s).resp = some r ∧ callErr (run Fixes.all s) = r.err := by
+  obtain ⟨hc, hr⟩ := callDo_some Fixes.all rfl rfl s
+  obtain ⟨r, hr⟩ := Option.isSome_iff_exists.mp hr
+  refine ⟨r, hr, ?_⟩
+  unfold run
+  simp only [hc, hr, Bool.false_eq_true, if_false]
+  cases he : s.entry <;> cases hre : r.err <;> simp [callErr]
+
+/-- **stage_error_is_seen** — for every stack in which no stage deliberately suppresses an
+error (no middleware clears `resp.Err`, no wrapper swallows the inner error or answers
+`(nil, nil)`): (1) if ANY stage of the final attempt raised an error — a request middleware, the
+built-in block, GetBody, the transport, reading or unmarshalling the body, a client-level or
+request-level response middleware returning an error or setting `resp.Err`, a wrapper, the
+digest middleware — the caller sees an error; (2) the error the caller sees is one that a stage
+raised during the call (or the builder / unreplayable-body error of `Do`, before any attempt).
+Which one wins when several stages fail is stated by the `precedence_*` theorems. -/
+theorem stage_error_is_seen (s : Stack) (hl : s.Loud) :
+    (∀ tl, (run Fixes.all s).atts.getLast? = some tl → raisedOf tl.evs ≠ [] →
+        callErr (run Fixes.all s) ≠ none) ∧
+    (∀ e, callErr (run Fixes.all s) = some e →
+        e ∈ allRaised (run Fixes.all s).atts ∨
+        ((run Fixes.all s).atts = [] ∧ (e = .builder ∨ e = .unreplayable))) := by
+  obtain ⟨r, hr, hce⟩ := run_callErr s
+  rw [run_atts, hce]
+  rcases callDo_cases Fixes.all s with ⟨e0, he0, hcd⟩ | hcd
+  · rw [hcd] at hr ⊢
+    simp only [Option.some.injEq] at hr; subst hr
+    refine ⟨by simp, ?_⟩
+    intro e he
+    simp only [Option.some.injEq] at he; subst he
+    exact Or.inr ⟨rfl, he0⟩
+  · rw [hcd] at hr ⊢
+    obtain ⟨r', tl, h1, h2, h3, h4⟩ := doLoop_seen s hl s.maxRetries 0 none
+    rw [h1] at hr; cases hr
+    refine ⟨?_, ?_⟩
+    · intro tl' htl; rw [h2] at htl; cases htl; exact h3
+    · intro e he
+      rcases h4 e he with h | h
+      · exact Or.inl h
+      · simp at h
+
+/-- Corollary: when every error raised during the call is the same `e` and the final attempt
+raised it, the caller sees exactly `e`. -/
+theorem single_error_is_the_error (s : Stack) (hl : s.Loud) (e : Err) (tl : Att)
+    (hlast : (run Fixes.all s).atts.getLast? = some tl) (hraised : raisedOf tl.evs ≠ [])
+    (hsame : ∀ e' ∈ allRaised (run Fixes.all s).atts, e' = e) :
+    callErr (run Fixes.all s) = some e := by
+  obtain ⟨h1, h2⟩ := stage_error_is_seen s hl
+  have hne := h1 tl hlast hraised
+  cases hc : callErr (run Fixes.all s) with
+  | none => exact absurd hc hne
+  | some e' =>
+    rcases h2 e' hc with h | ⟨h, _⟩
+    · rw [hsame e' h]
+    · rw [h] at hlast; simp at hlast
+
+example : callErr (run Fixes.all { udReq := [[.ok, .fail (.stage 7)]], transport := [.fail (.stage 7)], maxRetries := 1 })
+    = some (.stage 7) := by decide
+
+/-- Without the repair of request.go `do` (DESIGN section 5 row 4) an error IS lost: a wrapper
+returns `(resp, err)` without recording `err`, a request-level middleware returns nil. -/
+theorem as_found_error_lost :
+    callErr (run Fixes.none
+      { entry := .verb,
+        wrappers := [[.postErr (.stage 1)]],
+        transport := [.resp { status := 200, ct := [], custom := none, readOK := true, jsonOK := true, xmlOK := true }],
+        reqResp := [[.mw .nop]] }) = none := by decide
+
+/-! ### the precedence the code implements when several stages fail -/
+
+/-- The error a client-level response middleware leaves in `resp.Err`. -/
+def clientActErr (cur : Option Err) : RespAct → Option Err
+  | .nop => cur
+  | .ret e => some e
+  | .set e => some e
+  | .clear => none
+
+/-- **precedence (client loop)** — every client-level response middleware runs and the LAST one
+that returns an error (or assigns `resp.Err`) decides, also over a transport or unmarshalling
+error recorded before. -/
+theorem precedence_client_loop_last_wins (acts : List RespAct) :
+    ∀ i r, (clientLoop i acts r).1.err = acts.foldl clientActErr r.err := by
+  induction acts with
+  | nil => intro i r; rfl
+  | cons act rest ih =>
+    intro i r
+    simp only [clientLoop, List.foldl_cons]
+    rw [ih]
+    cases act <;> rfl
+
+/-- **precedence (request-level loop)** — the first request-level response middleware that
+returns an error ends the attempt; the caller sees the error ALREADY RECORDED in `resp.Err`
+(transport, unmarshalling, client-level middleware, wrapper) if there is one, else the
+middleware's. -/
+theorem precedence_recorded_over_returned (fx : Fixes) (s : Stack) (a i : Nat) (e : Err) (rest : List RAct)
+    (r : Resp) (err : Option Err) :
+    (reqRespLoop fx s a i (.mw (.ret e) :: rest) (some r) err).seen = orE r.err (some e) := by
+  simp [reqRespLoop, stageStep, Att.seen]
+
+/-- **precedence (wrappers)** — a wrapper that returns its own error without recording it loses
+against an error the inner round trip recorded in the response it passes on. -/
+theorem precedence_recorded_over_wrapper (a i : Nat) (core : RT) (e : Err) (rest : List (Nat × WAct)) :
+    (runWrappers a core ((i, .postErr e) :: rest)).carried =
+      orE ((runWrappers a core rest).resp.bind (·.err)) (some e) := by
+  simp [runWrappers, RT.carried]
+
+/-- **precedence (request middleware on a retry)** — a request middleware failing on a retry
+returns the response of the previous attempt; the caller sees the error that response already
+records, if any, else the middleware's error. -/
+theorem precedence_previous_over_request_mw (fx : Fixes) (s : Stack) (a : Nat) (prev : Option Resp) (k : Nat) (e : Err)
+    (hk : (s.udAt a)[k]? = some (.fail e)) (hbefore : ∀ j, j < k → (s.udAt a)[j]? = some .ok) :
+    (attempt fx s a prev).seen = orE (prev.bind (·.err)) (some e) := by
+  rcases attempt_request_phase fx s a prev with ⟨k', e', hk', h2, h3, _, _, h6, h7, _⟩ | ⟨hok, _⟩
+  · have : k' = k := by
+      rcases Nat.lt_trichotomy k' k with h | h | h
+      · have := hbefore k' h; rw [h2] at this; cases this
+      · exact h
+      · have := h3 k h; rw [hk] at this; cases this
+    subst this
+    rw [h2] at hk; cases hk
+    simp [Att.seen, h6, h7]
+  · have := hok _ (List.mem_of_getElem? hk); cases this
 
 end Req.Props.C18
